@@ -3,6 +3,7 @@ package rules
 import (
 	"go/ast"
 	"go/token"
+	"strings"
 
 	"verif/internal/core"
 	"verif/internal/flow"
@@ -17,11 +18,36 @@ import (
 func c09DefaultRef(c *core.Ctx) {
 	c.Rule("R-C09-6", "an unchanged rule keeps its limiter: in the two-generation policy comparison the filters' defaultPolicyRef values are compared only when the rule has no policyRef of its own (a reload that changes only the default must not reset rules that name their policy)")
 	rl := "pkg/filters/ratelimiter"
-	f := fn(c, rl, "", "isSamePolicy")
+	// role: the package function comparing two specs for one policy name → bool
+	var f *flow.Func
+	cands := funcsByRole(c, rl, func(g *flow.Func, fd *ast.FuncDecl) bool {
+		if fd.Recv != nil || fd.Type.Results == nil || len(fd.Type.Results.List) != 1 {
+			return false
+		}
+		if tv, ok := g.Info.Types[fd.Type.Results.List[0].Type]; !ok || tv.Type.String() != "bool" {
+			return false
+		}
+		specs, strs := 0, 0
+		for _, p := range c09params(g) {
+			switch {
+			case strings.HasSuffix(p.Type().String(), "/"+rl+".Spec"):
+				specs++
+			case p.Type().String() == "string":
+				strs++
+			}
+		}
+		return specs == 2 && strs == 1
+	})
+	if len(cands) == 1 {
+		f = cands[0]
+		c.Count("functions_analysed", 1)
+	} else {
+		f = fn(c, rl, "", "isSamePolicy")
+	}
 	if f == nil {
 		return
 	}
-	cons := fname(rl, "", "isSamePolicy")
+	cons := fname(rl, "", f.Node.(*ast.FuncDecl).Name.Name)
 	defF := structField(c, rl, "Spec", "DefaultPolicyRef")
 	if f.Type.Params == nil {
 		return
